@@ -159,7 +159,9 @@ def _shard(ctx, shard, nshards):
             k += 1
             if k % nshards != shard:
                 continue
-            if stride > 1 and ((i * 31 + j * 17 + ctx.seed) % stride):
+            # punctuation / conjunction atoms have rules of their own: their rows and columns are never sampled
+            special = (a[0] == 'a' and a[1] in gen_cat.EN_PUNCT) or (b[0] == 'a' and b[1] in gen_cat.EN_PUNCT)
+            if stride > 1 and not special and ((i * 31 + j * 17 + ctx.seed) % stride):
                 continue
             _do_pair(ctx, a, b, 'bounded', True)
     if shard == 0:
